@@ -31,7 +31,7 @@ pub fn generate(rng: &mut Rng, tier: Tier, stats: &mut GenStats) -> Scenario {
         else {
             let (mut expr, mut rooted) = ("**".to_string(), false);
             for _ in 0..6 {
-                let (e, r) = g.walk_glob(&model, &base, true, true, &mut stats.rejections);
+                let (e, r) = g.walk_glob(&model, &base, 2, true, &mut stats.rejections);
                 if !prefix_touches_link(&model, &base, &e, r) {
                     expr = e;
                     rooted = r;
@@ -70,13 +70,6 @@ pub fn generate(rng: &mut Rng, tier: Tier, stats: &mut GenStats) -> Scenario {
         walkers,
         mutations: vec![],
         schedule,
-    }
-}
-
-fn denorm(text: &str, root_text: &str) -> String {
-    match text.strip_prefix(R) {
-        Some(rest) => format!("{}{}", root_text, rest),
-        None => text.to_string(),
     }
 }
 
